@@ -18,6 +18,7 @@ import AM.Lemmas.MatcherTotal
 import AM.Lemmas.MatcherFallbackRT
 import AM.Lemmas.MatcherListRT
 import AM.Lemmas.MatcherClassicListRT
+import AM.Lemmas.MatcherFallbackListRT
 
 namespace AM.Mt
 open AM
@@ -164,6 +165,30 @@ theorem fallback_roundtrip (ip : Nat → Bool) (hp : ip 10 = false) (compiles : 
   by_cases hn : classicName m.name = true
   · rw [classic_roundtrip ip compiles m h hn]; simp
   · rw [classicMatcher_print_nonclassic ip compiles m (by simpa using hn)]; simp
+
+/-- Fallback mode, lists: `compat.Matchers(ms.String()) = ms` for every list of
+    well-formed matchers: the classic parser reads the same list back when all
+    names are classic and rejects the text otherwise. -/
+theorem fallback_roundtrip_list (ip : Nat → Bool) (hp : ip 10 = false) (compiles : Str → Bool) (ms : List Matcher)
+    (h : ∀ m ∈ ms, WellFormed compiles m) : fallbackMatchers compiles (printList ip ms) = .ok ms := by
+  rw [fallback_spec_list, utf8_roundtrip_list ip hp compiles ms h]
+  by_cases hn : ∀ m ∈ ms, classicName m.name = true
+  · rw [classic_roundtrip_list ip compiles ms h hn]; simp
+  · have hbad : ∃ m ∈ ms, classicName m.name = false := by
+      apply Classical.byContradiction
+      intro hno
+      apply hn
+      intro m hm
+      cases hcn : classicName m.name
+      · exact absurd ⟨m, hm, hcn⟩ hno
+      · rfl
+    rw [classicMatchers_printList_nonclassic ip compiles ms ?_ ?_ hbad]
+    · intro m hm
+      obtain ⟨n, hn'⟩ := valid_exists_chars (h m hm).name
+      obtain ⟨v, hv'⟩ := valid_exists_chars (h m hm).value
+      exact ⟨n, v, hn', hv'⟩
+    · intro m hm hcn
+      exact classic_roundtrip ip compiles m (h m hm) hcn
 
 /-- The brace guard is real: `foo=bar}` is a classic matcher (value `bar}`), the
     UTF-8 parser rejects it, and `compat.Matcher` in fallback mode rejects it too
